@@ -40,6 +40,20 @@ CLAIMS = {
               "symbolic matrix fresh unknowns with A X = I; action values at absorbing states are not constrained (the statement "
               "fixes only their state value); floats as reals"),
         ref='DESIGN.md section 4 C02'),
+    'C06': dict(
+        text=("The real reachable_states / state_list / action_list / transition, reward, action, initial, absorbing arrays and "
+              "tables / from_matrices / QuickTabularMDP are executed on MDP definitions whose rewards and initial weights are "
+              "symbolic and whose transition rows (up to two per case) carry symbolic probabilities p, 1-p with the endpoints "
+              "included, so the solver chooses which entries are exactly zero. z3 proves cell-by-cell that every array and table "
+              "entry IS the term the functional definition returns (any transposition or off-by-one changes a term), that the "
+              "state list is the duplicate-free positive-probability closure (absorbing states not expanded), the documented "
+              "max_states cut-off, the implicit-absorbing rule, and that from_matrices / the quick wrappers reproduce arrays, "
+              "lists, discount and a 3-sweep planning run, for int/str/tuple/frozendict/unsortable-mixed labels and explicit or "
+              "inferred lists."),
+        note=("skeletons of 1-4 states / 1-2 actions; at most two symbolic rows at once; labels from menus; one known finding "
+              "(absorbing state in the initial support is expanded) is reported as KNOWN-FINDING; two defects found by this check "
+              "were repaired in /repo (zero-probability successors / initial states raising KeyError)"),
+        ref='DESIGN.md section 4 C06'),
     'C11': dict(
         text=("For every support size within the bound and every distribution kind, the probability-calculus laws are "
               "proved for ALL probability/weight/score values at once (symbolic reals, zero entries included), by running "
